@@ -1245,6 +1245,8 @@ fn outline_chunks(limit: usize) -> Vec<(usize, [u8; 4], u32)> {
             }
         }
     }
+    // breadth first: a prefix of the list covers the early bytes of every table before any table's later bytes
+    v.sort_by_key(|c| (c.2, c.0, c.1));
     v
 }
 
